@@ -318,6 +318,13 @@ def run(ctx, rep):
     for o in r3.obligations:
         if o["instance"].startswith("30-day:"):
             rep.ob("R6", o["instance"], o["ok"], o["detail"], o["site"], key="R6:" + o["instance"])
+    # "Same Day first": what the 30-day rule leaves on a later acquisition date for that date's own disposals is the TOTAL sold
+    # that day — every sale line of the date and security, adjacent or not (shared with C06-R3; seeded change C01-s4)
+    import rules.c06 as c06
+    r4 = Report("tmp")
+    c06.same_day_total(R, r4)
+    for o in r4.obligations:
+        rep.ob("R6", "same-day-reservation:" + o["instance"], o["ok"], o["detail"], o["site"], key="R6:same-day-reservation:" + o["instance"])
 
 
 def controls(pctx, rep):
